@@ -912,6 +912,17 @@ fn payload(class: &str, rng: &mut StdRng, salt: u64) -> Vec<u8> {
             let pat = format!("<{}>", salt % 89);
             pat.as_bytes().iter().cycle().take(300 * 1024).copied().collect()
         }
+        "repetitive_3m" => {
+            let pat = format!("[{}]", salt % 83);
+            pat.as_bytes().iter().cycle().take(3 * 1024 * 1024).copied().collect()
+        }
+        "magic_prefix" => {
+            // the magic numbers of gzip, zlib, zstd, lz4 (frame) and a brotli-looking first byte, then noise
+            let magics: [&[u8]; 5] = [&[0x1f, 0x8b, 0x08, 0x00], &[0x78, 0x9c], &[0x28, 0xb5, 0x2f, 0xfd], &[0x04, 0x22, 0x4d, 0x18], &[0x1b]];
+            let mut v = magics[(salt % 5) as usize].to_vec();
+            v.extend(rand_bytes(rng, 40));
+            v
+        }
         "text_8k" => {
             let words = ["lorem", "ipsum", "dolor", "sit", "amet", "consectetur", "adipiscing", "elit", "0123456789", "\n"];
             let mut s = String::new();
@@ -979,7 +990,20 @@ fn cmd_pipeline(args: &[String]) {
             v.extend(r);
             v
         };
-        let raw: Vec<Vec<u8>> = (0..n).map(|i| payload(pclass, &mut rng, seed.wrapping_add(k * 7 + i as u64))).collect();
+        let raw: Vec<Vec<u8>> = (0..n)
+            .map(|i| {
+                if pclass == "own_frame" {
+                    // a payload that is itself a frame of the algorithm in use
+                    let inner = payload("text_8k", &mut rng, seed.wrapping_add(k * 7 + i as u64));
+                    match compressor(algo, &c["level"]) {
+                        Some((comp, _)) => comp.compress(Bytes::from(inner.clone())).map(|b| b.to_vec()).unwrap_or(inner),
+                        None => inner,
+                    }
+                } else {
+                    payload(pclass, &mut rng, seed.wrapping_add(k * 7 + i as u64))
+                }
+            })
+            .collect();
         let r = catch_unwind(AssertUnwindSafe(|| -> Result<(bool, usize), String> {
             // encode each value with the chosen codec
             let mut encoded: Vec<Bytes> = vec![];
